@@ -74,11 +74,13 @@ const KINDS: [Kind; 19] = [
 const CAPS: [usize; 3] = [0, 1, 2];
 const LETTERS: [&str; 5] = ["create", "drop oldest handle", "drop newest handle", "finish oldest sound", "callback"];
 const NL: u64 = 5;
-const STALE_CASES: u64 = 7 + RECYCLE_KINDS.len() as u64;
+const STALE_CASES: u64 = 8 + RECYCLE_KINDS.len() as u64;
 /// kinds taken through 12 create / drop / callback cycles at capacity 1 and 2 (more removals than any ring holds)
 const RECYCLE_KINDS: [Kind; 8] = [Kind::Clock, Kind::Tweener, Kind::Lfo, Kind::Listener, Kind::SendTrack, Kind::SubTrack, Kind::SpatialTrack, Kind::ProbeSoundMain];
-const E2_CASES: u64 = 6;
-const E2N_CASES: u64 = 4;
+pub const E2_CASES: u64 = 6;
+pub const E2N_CASES: u64 = 4;
+/// long races: {sounds, sub-tracks} x capacity {1, 2}
+const E2L_CASES: u64 = 4;
 
 fn depth(tier: Tier) -> usize {
 	tier.pick(7, 9)
@@ -101,7 +103,7 @@ impl Check for C08 {
 		Level::ModelChecking
 	}
 	fn num_cases(&self, _tier: Tier) -> u64 {
-		KINDS.len() as u64 * 3 * NL + STALE_CASES + E2_CASES + E2N_CASES
+		KINDS.len() as u64 * 3 * NL + STALE_CASES + E2_CASES + E2N_CASES + E2L_CASES
 	}
 	fn describe(&self, tier: Tier, idx: u64) -> String {
 		let g = KINDS.len() as u64 * 3 * NL;
@@ -133,7 +135,7 @@ impl Check for C08 {
 		format!("{:?} capacity {}", k, c)
 	}
 	fn rule(&self) -> String {
-		"all histories of length <= depth over {create, drop oldest handle, drop newest handle, finish oldest sound, callback} x 19 resource kinds (incl. tweeners with a pending tween, sounds / child tracks of a track that is itself not adopted yet, child tracks / sounds of a spatial track with non-default capacities, child tracks of a paused parent, and child+grandchild chains dropped together) x capacity {0,1,2}, judged by a counting model (pending / adopted / marked); plus 5 stale-id scenarios (clock, modulator, listener, send track, sub-track slot reuse), 2 orphaned-storage scenarios, and 12-cycle create/drop recycling of 8 kinds at capacity 1 and 2. states = distinct model states (per-resource phase vectors); non-trivial = histories in which at least one creation succeeded and one removal happened".into()
+		"all histories of length <= depth over {create, drop oldest handle, drop newest handle, finish oldest sound, callback} x 19 resource kinds (incl. tweeners with a pending tween, sounds / child tracks of a track that is itself not adopted yet, child tracks / sounds of a spatial track with non-default capacities, child tracks of a paused parent, and child+grandchild chains dropped together) x capacity {0,1,2}, judged by a counting model (pending / adopted / marked); plus 5 stale-id scenarios (clock, modulator, listener, send track, sub-track slot reuse), 2 orphaned-storage scenarios, the pending-siblings scenario (every subset of 3 children / 3 sounds added in one interval alive, parent handle dropped), and 12-cycle create/drop recycling of 8 kinds at capacity 1 and 2. states = distinct model states (per-resource phase vectors); non-trivial = histories in which at least one creation succeeded and one removal happened".into()
 	}
 	fn assumptions(&self) -> Vec<String> {
 		vec![
@@ -149,6 +151,10 @@ impl Check for C08 {
 	}
 	fn run_case(&self, tier: Tier, idx: u64, ctx: &mut Ctx) {
 		let g = KINDS.len() as u64 * 3 * NL;
+		if idx >= g + STALE_CASES + E2_CASES + E2N_CASES {
+			e2_long(tier, idx - g - STALE_CASES - E2_CASES - E2N_CASES, ctx);
+			return;
+		}
 		if idx >= g + STALE_CASES + E2_CASES {
 			e2_nested(tier, idx - g - STALE_CASES - E2_CASES, ctx);
 			return;
@@ -597,8 +603,8 @@ fn recycle(kind: Kind, ctx: &mut Ctx) {
 }
 
 fn stale_ids(which: u64, ctx: &mut Ctx) {
-	if which >= 7 {
-		recycle(RECYCLE_KINDS[(which - 7) as usize], ctx);
+	if which >= 8 {
+		recycle(RECYCLE_KINDS[(which - 8) as usize], ctx);
 		return;
 	}
 	ctx.evals += 1;
@@ -766,6 +772,73 @@ fn stale_ids(which: u64, ctx: &mut Ctx) {
 				ctx.fail("resource destroyed on the audio thread :: child of a parent whose handle was dropped earlier", "");
 			}
 		}
+		7 => {
+			// several things added to an adopted track in ONE interval, some of them removable at once, then the track's own
+			// handle dropped: the track lives on exactly as long as something pending or adopted under it is alive, and
+			// everything alive is wired to the output. All subsets of 3 children / 3 sounds that leave at least one alive.
+			for persisting_sounds in [false, true] {
+				for alive_mask in 1u32..8 {
+					for adopted_first in [true, false] {
+						let mut m = rig::manager(sr, 4, rig::caps(4), MainTrackBuilder::new());
+						let mut parent = m.add_sub_track(TrackBuilder::new().persist_until_sounds_finish(persisting_sounds).sub_track_capacity(4).sound_capacity(4)).unwrap();
+						if adopted_first {
+							cb(&mut m, &mut buf, ctx, "pending siblings");
+						}
+						let mut keep: Vec<Box<dyn Any>> = vec![];
+						let mut probes = vec![];
+						for i in 0..3 {
+							let alive = alive_mask & (1 << i) != 0;
+							if persisting_sounds {
+								let d = ProbeSoundData::new((0.1, 0.0), (0.1, 0.0));
+								d.shared.finished.store(!alive, Ordering::SeqCst);
+								let p = parent.play(d).expect("play");
+								if alive {
+									probes.push(p);
+								}
+							} else {
+								let mut c = parent.add_sub_track(TrackBuilder::new()).unwrap();
+								if alive {
+									probes.push(c.play(ProbeSoundData::new((0.1, 0.0), (0.1, 0.0))).expect("play"));
+									keep.push(Box::new(c));
+								}
+							}
+						}
+						drop(parent);
+						for _ in 0..3 {
+							cb(&mut m, &mut buf, ctx, "pending siblings");
+						}
+						let what = format!(
+							"{} on a track that {}; alive (bit mask, in creation order) {:03b}; all added in one interval, then the track's handle dropped, then 3 callbacks",
+							if persisting_sounds { "3 sounds (persist_until_sounds_finish)" } else { "3 child tracks, a looping probe sound on each live one" },
+							if adopted_first { "was adopted one callback earlier" } else { "was created in the same interval" },
+							alive_mask
+						);
+						if m.num_sub_tracks() != 1 {
+							ctx.fail("a track is removed (or miscounted) although something pending under it is alive :: pending siblings", format!("{}: num_sub_tracks {} expected 1", what, m.num_sub_tracks()));
+						}
+						if let Some(i) = probes.iter().position(|p| p.frames_emitted.load(Ordering::SeqCst) == 0) {
+							ctx.fail("a live sound / child track added together with removable siblings is never processed :: pending siblings", format!("{}: live probe #{} emitted no frame", what, i));
+						}
+						if probes.iter().any(|p| p.dropped_in_callback.load(Ordering::SeqCst)) {
+							ctx.fail("resource destroyed on the audio thread :: pending siblings", what.clone());
+						}
+						// and the whole family goes away once nothing is alive
+						for p in &probes {
+							p.finished.store(true, Ordering::SeqCst);
+						}
+						keep.clear();
+						for _ in 0..4 {
+							cb(&mut m, &mut buf, ctx, "pending siblings");
+						}
+						if m.num_sub_tracks() != 0 {
+							ctx.fail("a track is not removed after everything under it is gone :: pending siblings", format!("{}: num_sub_tracks {}", what, m.num_sub_tracks()));
+						}
+						ctx.transitions += 8;
+						ctx.nontrivial(hash64(&("siblings", persisting_sounds, alive_mask, adopted_first)));
+					}
+				}
+			}
+		}
 		_ => {
 			// sub-track slot reuse: sounds of a removed track are gone, the new track in the slot is empty
 			let mut t = m.add_sub_track(TrackBuilder::new()).unwrap();
@@ -792,7 +865,15 @@ fn stale_ids(which: u64, ctx: &mut Ctx) {
 // ---------------------------------------------------------------------------------------------
 // E2: the gameplay thread's create path || the audio thread's remove-and-add step
 
-fn e2_name(i: u64) -> String {
+pub fn e2_name(i: u64) -> String {
+	if i >= E2_CASES + E2N_CASES {
+		let j = i - E2_CASES - E2N_CASES;
+		return format!(
+			"long race, {} capacity {}: game(3 x create-something-that-is-removable-at-once) || audio(4 callbacks); switches between two operations of a thread are free, preemptions inside an operation are bounded; only the resource-controller steps (reserve, drain unused, push new, pop new, push unused) are scheduling points",
+			["sounds on the main track", "sub-tracks"][(j % 2) as usize],
+			[1, 2][(j / 2) as usize]
+		);
+	}
 	if i >= E2_CASES {
 		return e2n_name(i - E2_CASES);
 	}
@@ -1047,6 +1128,151 @@ fn e2_create_vs_remove(tier: Tier, which: u64, ctx: &mut Ctx) {
 	ctx.count(&format!("e2_schedules[{} cap {}]", kname, cap), stats.schedules);
 	ctx.count(&format!("e2_max_points[{} cap {}]", kname, cap), stats.max_points as u64);
 	ctx.count("e2_capped", stats.capped as u64);
+	for o in outcomes {
+		ctx.outcome(o);
+		ctx.state(o);
+	}
+	ctx.nontrivial_extra += nontrivial;
+	for (s, d) in fails {
+		ctx.fail(s, d);
+	}
+}
+
+// E2 (long race): several creates against several callbacks, every created resource removable at once, so that the
+// unused-resource ring and the slot accounting are exercised over more than one removal per drain. Scheduling points
+// are the resource-controller steps only; a switch between two operations of a thread (site "boundary:") is free.
+pub fn e2_long(tier: Tier, which: u64, ctx: &mut Ctx) {
+	use crate::sched::{self, Config, Exec};
+	use std::sync::Mutex;
+	fn filt(s: &'static str) -> bool {
+		s.starts_with("res.")
+	}
+	let kind = which % 2; // 0 sounds, 1 sub-tracks
+	let cap = [1usize, 2][(which / 2) as usize];
+	let cfg = Config { filter: filt, horizon: 3000, max_spin_rounds: 8, record_sites: true, ..Default::default() };
+	#[derive(Debug, Clone, Default, PartialEq)]
+	struct Obs {
+		created: Vec<bool>,
+		panics: Vec<String>,
+		epilogue: Vec<String>,
+	}
+	let mut body = |prefix: &[u8]| -> (sched::RunResult, Obs) {
+		let caps = Capacities { sub_track_capacity: if kind == 1 { cap } else { 4 }, send_track_capacity: 1, clock_capacity: 1, modulator_capacity: 1, listener_capacity: 1 };
+		let mut m = rig::manager(8, 2, caps, MainTrackBuilder::new().sound_capacity(if kind == 0 { cap } else { 4 }));
+		let mut buf = vec![0.0f32; 8];
+		let gone = || {
+			let d = ProbeSoundData::new((0.1, 0.0), (0.1, 0.0));
+			d.shared.finished.store(true, Ordering::SeqCst);
+			d
+		};
+		// fill to capacity with resources that are removable at once, adopt them
+		for _ in 0..cap {
+			if kind == 0 {
+				m.play(gone()).expect("fill");
+			} else {
+				drop(m.add_sub_track(TrackBuilder::new()).expect("fill"));
+			}
+		}
+		rig::callback(&mut m, &mut buf, 2, 2);
+		let mut renderer = m.backend_mut().renderer.take().unwrap();
+		let obs = Arc::new(Mutex::new(Obs::default()));
+		let back = Arc::new(Mutex::new(None));
+		let keep: Arc<Mutex<Option<Manager>>> = Arc::new(Mutex::new(None));
+		let mut ex = Exec::begin(&cfg, prefix);
+		{
+			let (obs, keep) = (obs.clone(), keep.clone());
+			ex.spawn("game", move || {
+				for _ in 0..3 {
+					let ok = if kind == 0 {
+						let d = ProbeSoundData::new((0.1, 0.0), (0.1, 0.0));
+						d.shared.finished.store(true, Ordering::SeqCst);
+						m.play(d).is_ok()
+					} else {
+						m.add_sub_track(TrackBuilder::new()).map(drop).is_ok()
+					};
+					obs.lock().unwrap().created.push(ok);
+					kira::verif::sync_point("boundary:game");
+				}
+				*keep.lock().unwrap() = Some(m);
+			});
+		}
+		{
+			let (obs, back) = (obs.clone(), back.clone());
+			ex.spawn("audio", move || {
+				let mut buf = [0.0f32; 4];
+				for _ in 0..4 {
+					let rep = rig::callback_on(&mut renderer, &mut buf, 2, 2);
+					if let Some(p) = rep.panic {
+						obs.lock().unwrap().panics.push(p);
+						break;
+					}
+					if rep.allocs + rep.frees > 0 {
+						obs.lock().unwrap().panics.push(format!("allocation/free on the audio thread (allocs {} frees {})", rep.allocs, rep.frees));
+					}
+					kira::verif::sync_point("boundary:audio");
+				}
+				*back.lock().unwrap() = Some(renderer);
+			});
+		}
+		let res = ex.run();
+		let mut o = obs.lock().unwrap().clone();
+		// sequential epilogue: two callbacks later nothing is counted, `cap` new resources fit, twice over
+		let taken = keep.lock().unwrap().take();
+		let renderer = back.lock().unwrap().take();
+		if let (Some(mut m), Some(r), true) = (taken, renderer, o.panics.is_empty()) {
+			m.backend_mut().renderer = Some(r);
+			let mut buf = vec![0.0f32; 8];
+			'rounds: for round in 0..3 {
+				for _ in 0..2 {
+					let rep = rig::callback(&mut m, &mut buf, 2, 2);
+					if let Some(p) = rep.panic {
+						o.epilogue.push(format!("audio-thread panic in the epilogue (round {}): {}", round, p));
+						break 'rounds;
+					}
+				}
+				let n = if kind == 0 { m.main_track().num_sounds() } else { m.num_sub_tracks() };
+				if n != 0 {
+					o.epilogue.push(format!("round {}: {} resource(s) still counted two callbacks after everything was finished/dropped", round, n));
+					break;
+				}
+				for k in 0..cap {
+					let ok = if kind == 0 { m.play(gone()).is_ok() } else { m.add_sub_track(TrackBuilder::new()).map(drop).is_ok() };
+					if !ok {
+						o.epilogue.push(format!("round {}: only {} of {} slots reusable although nothing is alive", round, k, cap));
+						break 'rounds;
+					}
+				}
+			}
+		}
+		(res, o)
+	};
+	let mut outcomes = std::collections::HashSet::new();
+	let mut fails: Vec<(String, String)> = vec![];
+	let mut nontrivial = 0u64;
+	let kname = ["sounds", "sub-tracks"][kind as usize];
+	let mut judge = |res: &sched::RunResult, o: &Obs, choices: &[u8]| {
+		outcomes.insert(hash64(&format!("{:?}", o)));
+		if choices.iter().any(|c| *c != 0) {
+			nontrivial += 1;
+		}
+		for p in res.panics.iter().chain(o.panics.iter()) {
+			fails.push((format!("panic while creates race the audio thread's remove-and-add over several callbacks: {} :: E2 long race, {}", crate::rig::normalize_panic(p), kname), sched::fmt_schedule(res)));
+		}
+		for e in &o.epilogue {
+			fails.push((format!("after a long create / remove race: {} :: E2 long race, {}", crate::rig::normalize_panic(e), kname), format!("{:?}; {}", o, sched::fmt_schedule(res))));
+		}
+	};
+	let stats = sched::explore(tier.pick(Some(2), Some(3)), 3_000_000, &mut body, &mut judge);
+	sched::report(ctx, &stats);
+	if let Some(e) = stats.error {
+		ctx.fail(format!("MACHINERY: scheduler error: {}", e), "");
+	}
+	ctx.schedules += stats.schedules;
+	ctx.evals += stats.schedules;
+	ctx.traces += stats.schedules;
+	ctx.transitions += stats.schedules * stats.max_points as u64;
+	ctx.count(&format!("e2_long_schedules[{} cap {}]", kname, cap), stats.schedules);
+	ctx.count(&format!("e2_long_max_points[{} cap {}]", kname, cap), stats.max_points as u64);
 	for o in outcomes {
 		ctx.outcome(o);
 		ctx.state(o);
